@@ -5,7 +5,7 @@ from props import apihist
 GEN_MODULES = []
 ASSUMPTIONS = ["theorems: the lazily filled glyph cache is history-independent and equals the preloaded one (Props/C08.lean); the pass-engine model is a function of its arguments by construction",
                "everything else is decided on the implementation by API histories: a probe segment before and after arbitrary other calls must dump identically, and the face must answer its queries identically"]
-TRUSTED = ["hand-written Model/Borrow.lean (glyph cache), tied to the code only through the end-to-end dumps"]
+TRUSTED = ["hand-written Model/Borrow.lean: the glyph cache is tied to the code only through the end-to-end dumps; the hinted-advance cache is run against Font::advance itself (values and callback calls)"]
 
 
 def verdict(out):
@@ -24,6 +24,72 @@ def verdict(out):
     return True, ""
 
 
+def num_glyphs(path):
+    """maxp.numGlyphs of an sfnt file"""
+    import struct
+    b = open(path, "rb").read()
+    n = struct.unpack(">H", b[4:6])[0]
+    for i in range(n):
+        tag, _, off, _ = struct.unpack(">4sIII", b[12 + 16 * i:28 + 16 * i])
+        if tag == b"maxp":
+            return struct.unpack(">H", b[off + 4:off + 6])[0]
+    return 0
+
+
+def adv_histories(ctx, res, r, count):
+    """Font::advance against Model/Borrow.lean's `advance`: pure request histories (values and the exact callback calls
+    must agree) and histories with segments, slot queries and justification in between (values must agree)"""
+    exe = lib.build_harness("h_seg")
+    fonts = apihist.font_paths()
+    ng = [num_glyphs(f) for f in fonts]
+    impl_lines, model_lines, pure = [], [], []
+    for _ in range(count):
+        fi = r.randrange(len(fonts))
+        kind = r.randrange(4)
+        name, fdir, texts = apihist.FONTS[fi]
+        hot = [r.randrange(ng[fi]) for _ in range(r.randrange(1, 5))]
+        groups = [[r.choice(hot) if r.random() < 0.6 else r.randrange(ng[fi]) for _ in range(r.randrange(1, 9))] for _ in range(r.randrange(1, 4))]
+        p = r.random() < 0.5
+        ops = ["F0=%d,%d,%s" % (fi, r.choice([0, 2]), r.choice(["f", "c"])), "H0=0,%s,%d" % (r.choice(["12", "16", "2048"]), kind)]
+        for gi, g in enumerate(groups):
+            if not p and gi:
+                ops += [apihist.seg_op(1, 0, 0, -1, r.choice(texts), r.choice([fdir, 1 - fdir])), "D1"] + (["J1=0,0,%s,0,-1,-1" % r.choice(["100", "3000"])] if r.random() < 0.4 else []) + ["d1"]
+            ops.append("A0=" + ",".join(map(str, g)))
+        impl_lines.append(";".join(ops))
+        model_lines.append("adv %d %d %s" % (kind, ng[fi], ",".join(str(x) for g in groups for x in g)))
+        pure.append(p)
+    impl = lib.run_lines([exe] + fonts, impl_lines, per_chunk=100)
+    model = lib.run_lines([lib.driver_path(), "adv"], model_lines, per_chunk=500) if ctx.model_ok else [None] * len(impl_lines)
+    res.harness.append("h_seg/adv")
+    res.rules.append("hinted-advance cache: %d shipped fonts x 4 callbacks (fractional, negative, sentinel-valued, large) x request histories of 1..24 glyph ids with repeats; half of them with segments, dumps and justification on the same font between the requests" % len(fonts))
+    for il, ml, io, mo, p in zip(impl_lines, model_lines, impl, model, pure):
+        res.evaluations += 1
+        res.distinct.add(il)
+        got = " ".join(x[2:] for x in io.split(" | ") if x.startswith("a="))
+        vals = [t.rstrip("*") for t in got.split()]
+        res.count("adv:" + ("pure" if p else "mixed") + (":crash" if io.startswith(("CRASH", "fault")) else ""))
+        # the property on the implementation alone: every answer is the callback's value for that glyph, whatever came before
+        gids = [int(x) for x in ml.split()[3].split(",")]
+        seen = {}
+        bad = None
+        if io.startswith(("CRASH", "fault")):
+            bad = "crash / sanitizer fault: " + io[:160]
+        elif len(vals) != len(gids):
+            bad = "missing answers"
+        else:
+            for g, v in zip(gids, vals):
+                if seen.setdefault(g, v) != v:
+                    bad = "Font::advance(%d) answered %s earlier and %s now" % (g, seen[g], v)
+                    break
+        if bad:
+            res.failures.append({"harness": "h_seg", "mode": "adv", "line": il, "model_line": ml, "impl": io[:600], "model": mo, "why": bad, "exe_args": fonts})
+        if mo is not None:
+            a, b = (got, mo) if p else (" ".join(vals), " ".join(t.rstrip("*") for t in mo.split()))
+            if a != b:
+                res.disagreements.append({"harness": "h_seg", "mode": "adv", "line": il, "model_line": ml, "impl": got, "model": mo, "explained_by_failure": bool(bad), "exe_args": fonts})
+    res.samples.append({"in": impl_lines[0][:300], "impl": impl[0][:200], "model": (model[0] or "")[:200]})
+
+
 def run(ctx):
     res = lib.Result()
     q = ctx.quick()
@@ -37,11 +103,13 @@ def run(ctx):
         opts = r.choice([0, 0, 2, 4, 6])
         src = r.choice(["f", "c"])
         probe = apihist.seg_op(0, 0, r.choice([0, -1]), -1, r.choice(texts), r.choice([fdir, fdir, 1 - fdir, 2, 5]))
-        ops = ["F0=%d,%d,%s" % (fi, opts, src), "N0=0,%s" % r.choice(["12", "20"]), "V1=0,0", "Q0", probe, "D0", "d0"] + apihist.noise(r, fi) + ["Q0", probe, "D0"]
+        # a third of the histories use a hinted font (Font::m_advances, the application's advance callback is a pure function of the glyph)
+        mkfont = "H0=0,%s,%d" % (r.choice(["12", "16"]), r.randrange(4)) if r.random() < 0.34 else "N0=0,%s" % r.choice(["12", "20"])
+        ops = ["F0=%d,%d,%s" % (fi, opts, src), mkfont, "V1=0,0", "Q0", probe, "D0", "d0"] + apihist.noise(r, fi) + ["Q0", probe, "D0"]
         lines.append(";".join(ops))
     impl = lib.run_lines([exe] + fonts, lines, per_chunk=40)
     res.harness.append("h_seg histories (implementation only)")
-    res.rules.append("histories: %d shipped fonts x options {0,2,4,6} x {file, callbacks}: face info, probe segment, 0..6 intervening calls (other segments in all directions, dumps, line breaks, justification, feature-value creation and setting, label/feature queries, second font, destructions), face info, the same probe again" % len(fonts))
+    res.rules.append("histories: %d shipped fonts x options {0,2,4,6} x {file, callbacks}: face info, probe segment, 0..6 intervening calls (other segments in all directions, dumps, line breaks, justification, feature-value creation and setting, label/feature queries, second font, destructions); a third of them on a hinted font whose advance callback returns fractional, negative, sentinel-valued or large advances, face info, the same probe again" % len(fonts))
     for l, o in zip(lines, impl):
         res.evaluations += 1
         res.distinct.add(l)
@@ -50,11 +118,27 @@ def run(ctx):
         if ok is False:
             res.failures.append({"harness": "h_seg", "mode": "history", "line": l, "impl": o[:600], "model": None, "why": why, "exe_args": fonts})
     res.samples.append({"in": lines[0][:300], "impl": impl[0][:200], "model": "(no model at this level)"})
+    adv_histories(ctx, res, r, 600 if q else 30000)
     return res.as_dict()
 
 
 def replay(ctx, obj):
     exe = lib.build_harness("h_seg")
+    items = [obj] if "line" in obj else obj.get("first", [])
+    if items and items[0].get("mode") == "adv":
+        still = False
+        for it in items:
+            out = lib.run_lines([exe] + it["exe_args"], [it["line"]])[0]
+            mo = lib.run_lines([lib.driver_path(), "adv"], [it["model_line"]])[0] if lib.driver_path().exists() else None
+            got = " ".join(x[2:] for x in out.split(" | ") if x.startswith("a="))
+            vals = [t.rstrip("*") for t in got.split()]
+            gids = [int(x) for x in it["model_line"].split()[3].split(",")]
+            seen = {}
+            incons = any(seen.setdefault(g, v) != v for g, v in zip(gids, vals)) or len(vals) != len(gids)
+            print("input : %s\nimpl  : %s\nmodel : %s\nsame glyph, same answer: %s" % (it["line"][:400], got[:400], mo, not incons))
+            if incons or (mo is not None and [t.rstrip("*") for t in mo.split()] != vals):
+                still = True
+        return still
     out = lib.run_lines([exe] + obj["exe_args"], [obj["line"]])[0]
     ok, why = verdict(out)
     print("input : %s\nimpl  : %s\nproperty predicate on impl output: %s %s" % (obj["line"][:400], out[:500], ok, why))
